@@ -637,7 +637,7 @@ def fn_cases(ctx):
     cases = []
     quick = ctx.tier == "quick"
     # exhaustive: every chunk shape of every extent up to the bound, every element position, element sizes 1 and 4
-    bound = (3, 3, 2) if quick else (4, 4, 3)
+    bound = (3, 2, 2) if quick else (4, 4, 3)
     for dims in itertools.product(*[range(1, m + 1) for m in bound]):
         for cl in itertools.product(*[range(1, d + 2) for d in dims]):
             n = prod(dims)
@@ -649,7 +649,7 @@ def fn_cases(ctx):
                 for og in itertools.product(*[range((d + c - 1) // c) for d, c in zip(dims, cl)]):
                     cases.append("C %d %d %s %s %s" % (nt, len(dims), " ".join(map(str, dims)), " ".join(map(str, cl)),
                                                      " ".join(map(str, og))))
-    for _ in range(1500 if quick else 20000):
+    for _ in range(500 if quick else 20000):
         nd = r.choice([1, 2, 2, 3, 3, 4, 5])
         dims = [r.randrange(1, 14) for _ in range(nd)]
         cl = [r.choice([1, d, r.randrange(1, d + 1), d + r.randrange(0, 3)]) for d in dims]
